@@ -241,6 +241,9 @@ def disc_def(rng, did):
     E["dstyle"] = rng.choice(["none", "snake_case", "SCREAMING_SNAKE_CASE", "kebab-case", "camelCase"]) if E["dder"] else "none"
     E["dsplit"] = rng.randrange(2)
     E["ddefault"] = rng.random() < 0.3          # derive(Default) on the discriminant enum + #[strum_discriminants(default)] on one variant
+    # type-level pass-through attributes other than derives: they must arrive on the generated enum
+    E["dpass"] = rng.choice([[], [], ["allow(dead_code)"], ["doc(hidden)"], ["doc(hidden)", "allow(dead_code)"], ["cfg_attr(all(), derive(PartialOrd))"],
+                             ["doc(alias = \"kind\")", "cfg_attr(all(), derive(PartialOrd))"]])
     for k, v in enumerate(E["variants"]):
         r = rng.random()
         # one or two separate variant-level pass-through attributes (the longer literal names the variant)
@@ -262,6 +265,7 @@ def disc_module(E):
         items.append("vis(%s)" % E["dvis"])
     if E.get("ddefault") and E["variants"]:
         items.append("derive(Default)")
+    items += E.get("dpass", [])
     if E["dder"]:
         items.append("derive(strum::EnumIter, strum::EnumString, strum::Display, strum::EnumCount, Hash)")
         if E["dstyle"] != "none":
@@ -307,6 +311,9 @@ def disc_module(E):
     lines.append("}")
     src += "\n".join("    " + l for l in lines) + "\n}\n"
     src += "use inner::*;\n"
+    if any("PartialOrd" in x for x in E.get("dpass", [])):
+        # the derive requested through cfg_attr(all(), ..) took effect
+        src += "fn _passes_through<X: PartialOrd>() {}\nfn _check_pass_through() { _passes_through::<%s>(); }\n" % dn
     src += "fn d_index(d: %s) -> usize { match d { %s } }\n" % (dn, " ".join("%s::%s => %d," % (dn, D.vid(v), i + 1) for i, v in enumerate(E["variants"])))
     src += "const ANCHOR: i128 = 0;\n"
     has_into = E["dvis"] in ("", "pub")
